@@ -282,17 +282,29 @@ def strip_comments(src):
     return src
 
 
-def grep_forbidden():
+def import_closure(modules):
+    """Files of the DaskModel modules reachable through `import DaskModel.…` from the given modules."""
+    todo, seen = list(modules), {}
+    while todo:
+        m = todo.pop()
+        if m in seen or not (m.startswith("DaskModel") or m.startswith("Drivers")):
+            continue
+        path = os.path.join(LEAN_DIR, *m.split(".")) + ".lean"
+        if not os.path.exists(path):
+            continue
+        with open(path) as f:
+            src = f.read()
+        seen[m] = (path, src)
+        todo += re.findall(r"^\s*(?:public\s+)?import\s+(\S+)", src, flags=re.M)
+    return seen
+
+
+def grep_forbidden(modules):
+    """Comment-stripped grep for forbidden tokens over the import closure of the property's modules."""
     hits = []
-    for root, _, files in os.walk(os.path.join(LEAN_DIR, "DaskModel")):
-        for fn in files:
-            if fn.endswith(".lean"):
-                p = os.path.join(root, fn)
-                with open(p) as f:
-                    src = strip_comments(f.read())
-                # the partial loop / parser in Sexp.lean and Driver.lean are not part of any proof
-                for m in FORBIDDEN.finditer(src):
-                    hits.append(f"{os.path.relpath(p, LEAN_DIR)}: {m.group(0).strip()}")
+    for m, (path, src) in sorted(import_closure(modules).items()):
+        for mt in FORBIDDEN.finditer(strip_comments(src)):
+            hits.append(f"{os.path.relpath(path, LEAN_DIR)}: {mt.group(0).strip()}")
     return hits
 
 
@@ -446,7 +458,7 @@ def main(argv=None):
         # 3. audit
         thms, problems = audit(modules, prop)
         broken += problems
-        hits = grep_forbidden()
+        hits = grep_forbidden(modules + ["Drivers." + drv[3:]])
         if hits:
             broken.append("forbidden tokens in Lean sources: " + "; ".join(hits[:10]))
         if not thms:
